@@ -11,10 +11,16 @@ DELIMS = [('(', ')'), ('[', ']'), ('\\{', '\\}'), ('|', '|'), ('.', ')'), ('\\la
 MACROS = {'zqm': (1, '\\alpha_{#1}'), 'zqv': (0, '\\vec{v}'), 'zqf': (2, '\\frac{#1}{#2}+1'), 'zqs': (1, '{#1}^{2}'), 'zqe': (0, '\\varepsilon')}
 
 
+# user macros with an optional first argument: name -> (number of arguments, default of the optional one, body)
+OPT_MACROS = {'zqn': (2, '', '\\left\\| #2\\right\\| _{#1}'), 'zqr': (2, '3', '\\sqrt[#1]{#2}')}
+
+
 def preamble():
     out = ''
     for name, (n, body) in sorted(MACROS.items()):
         out += '\\newcommand{\\%s}%s{%s}\n' % (name, '[%d]' % n if n else '', body)
+    for name, (n, dflt, body) in sorted(OPT_MACROS.items()):
+        out += '\\newcommand{\\%s}[%d][%s]{%s}\n' % (name, n, dflt, body)
     return out
 
 
@@ -157,6 +163,17 @@ class MathGen(object):
             lo, lo2 = self.expr(0)
             hi, hi2 = self.expr(0)
             return '%s_{%s}^{%s} ' % (op, lo, hi), '%s_{%s}^{%s} ' % (op, lo2, hi2)
+        if self.macros and r.random() < 0.35:
+            # a user macro with an optional first argument (empty or non-empty default), given or not
+            self.features.add('user-macro-optional')
+            name = r.choice(sorted(OPT_MACROS))
+            n, dflt, body = OPT_MACROS[name]
+            a, a2 = self.expr(d)
+            given = r.random() < 0.5
+            o1 = r.choice('pk2') if given else dflt
+            w = '\\%s%s{%s}' % (name, '[%s]' % o1 if given else '', a)
+            e = body.replace('#1', o1).replace('#2', a2)
+            return w, e + ' '
         if self.macros:
             self.features.add('user-macro')
             name = r.choice(sorted(MACROS))
